@@ -234,12 +234,50 @@ READER_NOTE = "WsReaderMon is a deterministic monitor over public-call events; `
 READER_MODEL_NOTE = "WsReaderImpl (the real NextFrame/Read/Discard algorithm over an abstract frame stream with 1-byte headers) is explored exhaustively by TLC for all streams of <= 3 frames over the alphabet, against the same monitor that judges the real traces"
 
 
+def replay_reader(run, b):
+    """R binding for the reader: behaviours of WsReaderImpl drawn by TLC -simulate replayed into the real Reader."""
+    import tlaparse
+    simdir = os.path.join(run.work, "sim-reader")
+    files = vlib.tlc_simulate(run, "WsReaderImpl", "WsReaderImpl_sim", 150 if run.tier == "quick" else 2000, 40, simdir)
+    inp = os.path.join(run.work, "r04-in.ndjson")
+    with open(inp, "w") as f:
+        for i, path in enumerate(files):
+            sts = [s for s in tlaparse.behaviour(path) if s["phase"] == "run"]
+            if len(sts) < 2:
+                continue
+            sc = sts[-1]["sc"]
+            steps = []
+            for st in sts[1:]:
+                ev = dict(st["lastEv"])
+                ev["st"] = dict(frame=st["frame"], rawN=st["rawN"], frag=st["frag"], opCode=st["opCode"])
+                steps.append(ev)
+            f.write(json.dumps(dict(key="simr/%d/%d" % (run.seed, i), side=sc["side"], ext=sc["ext"], utf8=sc["utf8"], max=sc["max"], cut=sc["cut"],
+                                    frames=[dict(op=x["op"], fin=x["fin"], rsv=x["rsv"], masked=x["masked"], pay=x["pay"], hs=x["hs"], ps=x["ps"], pe=x["pe"]) for x in sc["frames"]],
+                                    steps=steps)) + "\n")
+    e = {"R04_IN": inp}
+    if getattr(run, "only", None):
+        e["VERIF_ONLY"] = run.only
+    d, meta = run.drive(b, "r04", env=e)
+    run.extra.update(meta.get("extra") or {})
+    nt, ne, rej = vlib.tlc_traces(run, "TraceWsReader", meta["files"]["traces"])
+    run.cov["traces_validated_against_impl"] += nt
+    for key, line, lines, why in rej:
+        run.candidate(key, "replayed model behaviour: real trace rejected by TraceWsReader at event %d: %s" % (line, why),
+                      lambda lines=lines: (True, dict(trace=[json.loads(l) for l in lines][:60])))
+    for p in meta["files"]["records"] or []:
+        for l in open(p):
+            r = json.loads(l)
+            if r["firstDiff"] >= 0:
+                run.drift.append("%s step %d: %s" % (r["key"], r["firstDiff"], r["what"]))
+
+
 @prop("C04")
 def c04(run):
     b = run.build()
     run.assumptions += [READER_NOTE, "how many bytes one Read returns is left open; NextReader drops intermediate control frames as documented",
                         READER_MODEL_NOTE]
     vlib.tlc_model(run, "WsReaderImpl", workers=12, xmx="12g")
+    replay_reader(run, b)
     traces_check(run, b, "c04", "TraceWsReader")
     return run.finish("model_checking")
 
